@@ -1,11 +1,15 @@
-import Rare.Proofs.C09C10
+import Rare.Proofs.C09C10Std
+import Rare.Proofs.C09Utf8Char
 /-!
 Property C09 – template syntax: literals, escapes, quotes and nesting parse as documented.
 
 Model: `Rare.Expr.compile` / `splitArgs` / `stageSimpleVariable` (`Rare/Model/Expr/Core.lean`), the model of
 `KeyBuilder.Compile`, `splitTokenizedArguments`, `stageSimpleVariable` in /repo/pkg/expressions.
 Spec: `Rare/Spec/C09.lean` (`Expr`, `evalTree`, `escapeLit`, `printTop`, `Piece`/`layout`, `Unterminated`).
-Templates are rune lists (`[]rune(template)`); the UTF-8 glue is covered by the correspondence run.
+Templates are rune lists (`[]rune(template)`).  The step from Go's strings to rune lists is in the model
+too: `decodeUtf8` (Go's `[]rune(s)` / `for range s`: every invalid byte becomes one U+FFFD), `encodeUtf8`
+(`string([]rune)`), `wellFormed` (Unicode table 3-7, structural) – `Rare/Model/C09Utf8.lean`; the byte-level
+entry points are `compileBytes` and `splitArgsBytes` (theorems `utf8_*`, `*_bytes` below).
 -/
 namespace Rare.C09
 open Rare Rare.Expr
@@ -115,6 +119,75 @@ theorem print_compile_opt_agrees (reg : Registry) (fn : List Char → List Bytes
   obtain ⟨s0, h0, r0⟩ := Rare.C10.optimize_sound reg (printTop σ e) s1 [] h1
   exact ⟨s1, s0, h1, h0, fun ctx => (r0 ctx).symm⟩
 
+/-! ### UTF-8: from Go strings to rune lists and back -/
+
+/-- `[]rune(string(rs)) = rs` for Unicode scalar values (everything but surrogates and values above
+    U+10FFFF, which `string(rune)` itself replaces by U+FFFD). -/
+theorem utf8_decode_encode (rs : List Nat) (h : ∀ r ∈ rs, Rare.C20.validScalar r) :
+    decodeUtf8 (encodeUtf8 rs) = rs :=
+  Rare.C20.decodeUtf8_encodeUtf8 rs h
+
+/-- `string([]rune(b)) = b` for well-formed `b` – `wellFormed` is the decidable, structural predicate
+    "concatenation of the byte sequences of Unicode table 3-7"; it does not mention the decoder. -/
+theorem utf8_encode_decode (b : Bytes) (h : wellFormed b = true) : encodeUtf8 (decodeUtf8 b) = b :=
+  (wellFormed_iff b).mp h
+
+/-- … and only for those: the table is exactly the set of byte strings that survive the round trip. -/
+theorem utf8_wellFormed_iff (b : Bytes) : wellFormed b = true ↔ encodeUtf8 (decodeUtf8 b) = b :=
+  wellFormed_iff b
+
+/-- **One replacement rune per invalid byte.**  Where no sequence of table 3-7 starts (a stray
+    continuation byte, C0/C1/F5..FF, an overlong or surrogate or too large lead/second byte pair, a
+    sequence cut short by a non-continuation byte or by the end of the string) the decoder emits ONE
+    U+FFFD and resumes at the very next byte. -/
+theorem utf8_invalid_byte (b0 : UInt8) (tl : Bytes) (h : seqLen (b0 :: tl) = 0) :
+    decodeUtf8 (b0 :: tl) = 0xFFFD :: decodeUtf8 tl :=
+  decodeUtf8_bad b0 tl h
+
+/-- Where a sequence of table 3-7 starts the decoder emits the scalar value whose encoding is that
+    sequence and resumes right after it.  (With `utf8_invalid_byte` this determines `decodeUtf8`.) -/
+theorem utf8_sequence (b0 : UInt8) (tl : Bytes) (h : seqLen (b0 :: tl) ≠ 0) :
+    ∃ cp, Rare.C20.validScalar cp ∧ Rare.C20.encodeRune cp = (b0 :: tl).take (seqLen (b0 :: tl)) ∧
+      decodeUtf8 (b0 :: tl) = cp :: decodeUtf8 ((b0 :: tl).drop (seqLen (b0 :: tl))) :=
+  decodeUtf8_good b0 tl h
+
+/-- The model's rune lists and Go's strings: text written rune by rune (`strings.Builder.WriteRune`, how
+    `Compile` and the splitter build every literal and every argument) is read back rune for rune – so
+    the nested `Compile(arg string)` sees exactly the rune list the model passes on; and re-encoding
+    the runes of ANY byte string gives Go's `string([]rune(s))` (= the string itself iff well-formed). -/
+theorem utf8_runes_roundtrip (cs : List Char) (b : Bytes) :
+    decodeRunes (encodeRunes cs) = cs ∧ wellFormed (encodeRunes cs) = true ∧
+    encodeRunes (decodeRunes b) = encodeUtf8 (decodeUtf8 b) :=
+  ⟨decodeRunes_encodeRunes cs, wellFormed_encodeRunes cs, encodeRunes_decodeRunes b⟩
+
+/-- Byte-level literal round trip: for EVERY byte string `text` (valid UTF-8 or not), escaping its runes
+    and compiling the resulting template *string* evaluates to `string([]rune(text))` – which is `text`
+    itself when `text` is well-formed UTF-8. -/
+theorem escape_roundtrip_bytes (reg : Registry) (opt : Bool) (text : Bytes) :
+    ∃ stages, compileBytes reg opt (encodeRunes (escapeLit (decodeRunes text))) = .ok (stages, []) ∧
+      (∀ ctx, (buildKey stages).run ctx = .ok (encodeUtf8 (decodeUtf8 text))) ∧
+      (wellFormed text = true → ∀ ctx, (buildKey stages).run ctx = .ok text) := by
+  obtain ⟨st', h1', h2'⟩ := compileF_escapeLit (escapeLit (decodeRunes text)).length reg opt (decodeRunes text)
+  refine ⟨st', ?_, fun ctx => ?_, fun hw ctx => ?_⟩
+  · rw [compileBytes, decodeRunes_encodeRunes]; exact h1'
+  · rw [h2' ctx, utf8_eq_encodeRunes, encodeRunes_decodeRunes]
+  · rw [h2' ctx, utf8_eq_encodeRunes, encodeRunes_decodeRunes_wf text hw]
+
+/-- Byte-level print/compile round trip: the printed tree as a Go string. -/
+theorem print_compile_bytes (reg : Registry) (fn : List Char → List Bytes → Bytes) (opt : Bool) (σ : Style)
+    (e : C09.Expr) (ha : AdmissibleTop e) (hreg : RegSem reg fn e) :
+    ∃ stages, compileBytes reg opt (encodeRunes (printTop σ e)) = .ok (stages, []) ∧
+      ∀ ctx, (buildKey stages).run ctx = .ok (evalTree (envOf ctx fn) e) := by
+  rw [compileBytes, decodeRunes_encodeRunes]
+  exact print_compile reg fn opt σ e ha hreg
+
+/-- Byte-level splitter: `splitTokenizedArguments(string)` on a laid-out argument list. -/
+theorem split_spec_bytes (l : List (List Char × Piece)) (trail : List Char)
+    (hl : LayoutOk true l) (ht : allSpace trail = true) :
+    splitArgsBytes (encodeRunes (layout l ++ trail)) = l.map (fun p => encodeRunes p.2.value) := by
+  rw [splitArgsBytes, decodeRunes_encodeRunes, split_spec l trail hl ht, List.map_map]
+  rfl
+
 /-! ### Non-vacuity: the hypotheses are satisfiable on concrete, non-trivial values -/
 
 /-- `{f "a b" {1} {g {k}} x}` as a tree. -/
@@ -158,5 +231,25 @@ example : NoFuelMsg sampleReg := by
   split at h
   · cases h; simp [pureBuilder]
   · cases h
+
+/-- `{if {eq {0} "a b"} {not {k}} no}` over the STANDARD registry satisfies the hypotheses of `print_compile`
+    (lazy `if`, folding `eq`, strict `not`; any set of known-but-unmodelled other names). -/
+example (known : List String) : AdmissibleTop stdTree ∧ RegSem (stdRegistry known) stdFn stdTree :=
+  ⟨by simp only [AdmissibleTop, stdTree, Admissible, AdmissibleArgs]; decide, stdTree_regSem known⟩
+
+example : RegSem sampleReg sampleFn sampleTree :=
+  regSem_of_regOk _ _ _ (by simp [sampleTree, RegOk, RegOkArgs, sampleReg, pureRegistry])
+
+/-- "aé€😀": 1-, 2-, 3- and 4-byte sequences. -/
+example : wellFormed [0x61, 0xC3, 0xA9, 0xE2, 0x82, 0xAC, 0xF0, 0x9F, 0x98, 0x80] = true := by decide
+example : decodeUtf8 [0x61, 0xC3, 0xA9, 0xE2, 0x82, 0xAC, 0xF0, 0x9F, 0x98, 0x80] = [0x61, 0xE9, 0x20AC, 0x1F600] := by decide
+
+/-- Overlong (C0 80, E0 80 80), surrogate (ED A0 80), above U+10FFFF (F4 90 80 80), truncated (E2 82),
+    stray continuation (80), F5: nothing starts there, and every byte gets its own U+FFFD. -/
+example : seqLen [0xC0, 0x80] = 0 ∧ seqLen [0xE0, 0x80, 0x80] = 0 ∧ seqLen [0xED, 0xA0, 0x80] = 0 ∧
+    seqLen [0xF4, 0x90, 0x80, 0x80] = 0 ∧ seqLen [0xE2, 0x82] = 0 ∧ seqLen [0x80] = 0 ∧ seqLen [0xF5, 0x80] = 0 := by decide
+example : decodeUtf8 [0xF4, 0x90, 0x80, 0x80, 0x41, 0xE2, 0x82] = [0xFFFD, 0xFFFD, 0xFFFD, 0xFFFD, 0x41, 0xFFFD, 0xFFFD] := by
+  decide
+example : wellFormed [0xED, 0xA0, 0x80] = false ∧ wellFormed [0xED, 0x9F, 0xBF] = true := by decide
 
 end Rare.C09
